@@ -159,7 +159,7 @@ impl Workload for Rewrites {
 pub fn run(ctx: &Ctx) -> i32 {
     let mut acc = Acc::new(ctx);
     let wl = Rewrites {
-        n: if ctx.quick() { 3000 } else { 300_000 },
+        n: if ctx.quick() { 12_000 } else { 300_000 },
     };
     acc.pool(&wl, "c05", true);
     // Canary: the comparison must see a changed document.
